@@ -441,3 +441,661 @@ Qed.
 
 Lemma keep_real a y : keep a = Some y -> a = (fst y, IReal (snd y)).
 Proof. destruct a as [k [|p]]; unfold keep; simpl; [discriminate|]. intro H. injection H as <-. reflexivity. Qed.
+(* ==================================================================================== *)
+(** * F. one call: Table / InlineTable / TableLike-for-InlineTable versus the reference map *)
+
+Local Arguments om_insert {V} k v m : simpl never.
+Local Arguments om_remove {V} k m : simpl never.
+Local Arguments om_get {V} k m : simpl never.
+Local Arguments om_mem {V} k m : simpl never.
+Local Arguments om_retain {V} f m : simpl never.
+Local Arguments om_sort_by {V} le m : simpl never.
+Local Arguments om_sort_keys {V} m : simpl never.
+Local Arguments norm kd p : simpl never.
+Local Arguments visible c : simpl never.
+Local Arguments only_values c : simpl never.
+Local Arguments t_len c : simpl never.
+Local Arguments hack i : simpl never.
+Local Arguments as_value i : simpl never.
+Local Arguments into_value i : simpl never.
+Local Arguments is_value i : simpl never.
+
+Definition tkind (kd : mkind) : Prop := kd = KTable \/ kd = KInline \/ kd = KInlineTL.
+Definition Inv (kd : mkind) (c : imap item) : Prop :=
+  NoDup (keys c) /\ (kd <> KTable -> Forall (fun kv => notab (snd kv)) c).
+Definition sim (kd : mkind) (r : imap item * out) (r' : omap pay * out) : Prop :=
+  Inv kd (fst r) /\ abs (fst r) = fst r' /\ snd r = snd r'.
+
+Lemma ref_get k c :
+  NoDup (keys c) -> om_get k (abs c) = match im_get k c with Some (IReal p) => Some p | _ => None end.
+Proof. intro H. rewrite om_get_eq. apply abs_get. exact H. Qed.
+Lemma ref_mem k c :
+  NoDup (keys c) -> om_mem k (abs c) = match im_get k c with Some (IReal p) => true | _ => false end.
+Proof. intro H. rewrite om_mem_eq, abs_get by assumption. destruct (im_get k c) as [[|p]|]; reflexivity. Qed.
+
+Lemma hack_notab i : notab (hack i).
+Proof. unfold notab, hack, into_value. destruct i as [|[z| |]]; congruence. Qed.
+
+Lemma Inv_nil kd : Inv kd [].
+Proof. split; [constructor|intros _; constructor]. Qed.
+Lemma Inv_insert kd k i c : Inv kd c -> (kd <> KTable -> notab i) -> Inv kd (im_insert k i c).
+Proof.
+  intros [ND NT] Hi. split; [apply NoDup_insert; exact ND|].
+  intro Hk. apply (Forall_insert notab); auto.
+Qed.
+Lemma Inv_remove kd k c : Inv kd c -> Inv kd (im_shift_remove k c).
+Proof.
+  intros [ND NT]. split; [apply NoDup_remove; exact ND|].
+  intro Hk. apply (Forall_remove notab); auto.
+Qed.
+Lemma Inv_retain kd f c : Inv kd c -> Inv kd (im_retain f c).
+Proof.
+  intros [ND NT]. split; [apply NoDup_retain; exact ND|].
+  intro Hk. apply (Forall_retain notab); auto.
+Qed.
+Lemma Inv_sort kd le c : Inv kd c -> Inv kd (im_sort_by le c).
+Proof.
+  intros [ND NT]. split; [apply NoDup_sort; exact ND|].
+  intro Hk. apply (Forall_sort notab); auto.
+Qed.
+Lemma Inv_extend kd l c :
+  Inv kd c -> (kd <> KTable -> Forall (fun kv => notab (snd kv)) l) -> Inv kd (im_extend l c).
+Proof.
+  intros [ND NT] Hl. split; [apply NoDup_extend; exact ND|].
+  intro Hk. apply (Forall_extend notab); auto.
+Qed.
+
+Lemma notab_norm kd p : tkind kd -> kd <> KTable -> notab (IReal (norm kd p)).
+Proof.
+  intros [->|H] Hk; [congruence|]. unfold notab. pose proof (norm_notab kd p H). congruence.
+Qed.
+Lemma notab_none : notab INone.
+Proof. unfold notab. congruence. Qed.
+
+Lemma ref_insert_t kd : tkind kd -> ref_insert kd = om_insert.
+Proof. intros [->|[->| ->]]; reflexivity. Qed.
+Lemma is_map_kind_t kd : tkind kd -> is_map_kind kd = false.
+Proof. intros [->|[->| ->]]; reflexivity. Qed.
+
+Section OneCall.
+  Variable kd : mkind.
+  Variable c : imap item.
+  Hypothesis Hk : tkind kd.
+  Hypothesis HI : Inv kd c.
+
+  Let ND : NoDup (keys c) := proj1 HI.
+
+  Lemma get_notab k q : kd <> KTable -> im_get k c = Some (IReal q) -> q <> PTab.
+  Proof.
+    intros Hn G. pose proof (Forall_get notab k c _ (proj2 HI Hn) G) as H. unfold notab in H. congruence.
+  Qed.
+
+  (* inserting a real item at a key that is not a placeholder *)
+  Lemma L_ins k p :
+    ph k c = false ->
+    Inv kd (im_insert k (IReal (norm kd p)) c) /\
+    abs (im_insert k (IReal (norm kd p)) c) = om_insert k (norm kd p) (abs c).
+  Proof.
+    intros Hp. split.
+    - apply Inv_insert; [exact HI|]. intro. apply notab_norm; assumption.
+    - apply abs_insert_real; assumption.
+  Qed.
+  Lemma L_rm k : Inv kd (im_shift_remove k c) /\ abs (im_shift_remove k c) = om_remove k (abs c).
+  Proof. split; [apply Inv_remove; exact HI|apply abs_remove; exact ND]. Qed.
+  Lemma L_touch k : im_get k c = None -> Inv kd (im_insert k INone c) /\ abs (im_insert k INone c) = abs c.
+  Proof.
+    intro G. split; [|apply abs_insert_none; exact G].
+    apply Inv_insert; [exact HI|]. intro. apply notab_none.
+  Qed.
+End OneCall.
+
+Lemma retain_inline f c :
+  Forall (fun kv => notab (snd kv)) c ->
+  im_retain (fun k i => match as_value i with Some v => pred_eval f k v | None => false end) c
+  = im_retain (fun k i => negb (is_none i) && pred_eval f k i) c.
+Proof.
+  intro H. apply im_retain_ext. eapply Forall_impl; [|exact H].
+  intros [k [|q]] Hn; simpl in *; [reflexivity|].
+  rewrite as_value_real; [reflexivity|]. unfold notab in Hn. congruence.
+Qed.
+
+Lemma sort_keys_sim kd c :
+  Inv kd c ->
+  Inv kd (im_sort_by (fun a b : bytes * item => key_leb (fst a) (fst b)) c) /\
+  abs (im_sort_by (fun a b : bytes * item => key_leb (fst a) (fst b)) c) = om_sort_keys (abs c).
+Proof.
+  intro HI. split; [apply Inv_sort; exact HI|].
+  unfold om_sort_keys. apply abs_sort with (Q := fun _ => True).
+  - intros a b d. apply key_leb_trans.
+  - intros a b. apply key_leb_total.
+  - intros a b y z _ _ Ha Hb. apply keep_real in Ha. apply keep_real in Hb. subst. reflexivity.
+  - apply Forall_forall. auto.
+Qed.
+
+Lemma sort_by_table_sim cm c :
+  Inv KTable c ->
+  Inv KTable (im_sort_by (tcmp_le cm) c) /\
+  abs (im_sort_by (tcmp_le cm) c) = om_sort_by (cmp_le cm) (abs c).
+Proof.
+  intro HI. split; [apply Inv_sort; exact HI|].
+  apply abs_sort with (Q := fun _ => True).
+  - apply tcmp_le_trans.
+  - apply tcmp_le_total.
+  - intros a b y z _ _ Ha Hb. apply keep_real in Ha. apply keep_real in Hb. subst. destruct cm; reflexivity.
+  - apply Forall_forall. auto.
+Qed.
+
+Lemma sort_by_inline_sim kd cm c :
+  kd <> KTable -> Inv kd c ->
+  Inv kd (im_sort_by (icmp_le cm) c) /\
+  abs (im_sort_by (icmp_le cm) c) = om_sort_by (cmp_le cm) (abs c).
+Proof.
+  intros Hk HI. split; [apply Inv_sort; exact HI|].
+  apply abs_sort with (Q := fun kv => notab (snd kv)).
+  - apply icmp_le_trans.
+  - apply icmp_le_total.
+  - intros a b y z Qa Qb Ha Hb. apply keep_real in Ha. apply keep_real in Hb. subst. simpl in *.
+    rewrite icmp_le_alt. simpl.
+    rewrite !is_value_real by (unfold notab in *; congruence). destruct cm; reflexivity.
+  - exact (proj2 HI Hk).
+Qed.
+
+Lemma extend_sim kd l c :
+  tkind kd -> Inv kd c -> existsb (fun kv => ph (fst kv) c) l = false ->
+  Inv kd (im_extend (map (fun kv : bytes * pay => (fst kv, IReal (norm kd (snd kv)))) l) c) /\
+  abs (im_extend (map (fun kv : bytes * pay => (fst kv, IReal (norm kd (snd kv)))) l) c)
+  = fold_left (fun (acc : omap pay) (kv : bytes * pay) => om_insert (fst kv) (norm kd (snd kv)) acc) l (abs c).
+Proof.
+  intros Hk HI Hp. split.
+  - apply Inv_extend; [exact HI|]. intro Hn. apply Forall_forall. intros x Hx.
+    apply in_map_iff in Hx as [kv [<- _]]. simpl. apply notab_norm; assumption.
+  - apply (abs_extend (norm kd)); [exact (proj1 HI)|exact Hp].
+Qed.
+
+
+Lemma tstep_sim kd c o :
+  tkind kd -> Inv kd c -> tsens kd c o = false -> sim kd (tstep kd c o) (ref_step kd (abs c) o).
+Proof.
+  intros Hk HI Hs. pose proof (proj1 HI) as ND.
+  unfold sim, tstep, ref_step. unfold tsens in Hs.
+  rewrite (ref_insert_t kd Hk), (is_map_kind_t kd Hk).
+  destruct (avail kd o) eqn:Av; cbn [negb andb] in *; [|cbn; auto].
+  destruct o.
+  all: try (pose proof (ref_get k c ND) as G; pose proof (ref_mem k c ND) as M).
+  all: try (pose proof (L_ins kd c Hk HI k p) as Li).
+  all: try (pose proof (L_rm kd c HI k) as [Lr1 Lr2]).
+  all: try (pose proof (L_touch kd c HI k) as Lt).
+  all: try (pose proof (get_notab kd c HI k) as Lq).
+  all: destruct Hk as [->|[->| ->]]; cbn in Av; try discriminate Av; clear Av.
+  all: cbn in Hs; cbn.
+  all: try (unfold ph in *; destruct (im_get k c) as [[|q]|] eqn:Gk; try discriminate Hs).
+  all: try rewrite G; try rewrite M; cbn.
+  all: try (destruct Li as [Li1 Li2]; [reflexivity|]).
+  all: try (assert (Hq : q <> PTab) by (apply Lq; [discriminate|reflexivity])).
+  all: rewrite ?into_value_real, ?as_value_real, ?hack_real, ?is_value_real by assumption.
+  all: unfold real in *.
+  all: try (solve [split; [first [assumption | apply Inv_nil] | split; [first [assumption | reflexivity] | first [reflexivity | destruct q; reflexivity || congruence]]]]).
+  all: rewrite ?abs_length, ?emp_eq, ?abs_length, ?abs_visible.
+  all: try rewrite (anyph_false_visible c Hs).
+  all: try rewrite (only_values_visible c) by (apply (proj2 HI); discriminate).
+  all: try rewrite (im_insert_same k (IReal q) c Gk).
+  all: try rewrite (retain_inline f c) by (apply (proj2 HI); discriminate).
+  all: try (solve [split; [first [assumption | apply Inv_nil] | split; reflexivity]]).
+  all: try (solve [split; [apply Inv_retain; assumption | split; [apply abs_retain; reflexivity | reflexivity]]]).
+  all: try (solve [destruct (sort_keys_sim _ c HI); auto]).
+  all: try (solve [destruct (sort_by_table_sim c0 c HI); auto]).
+  all: try (solve [destruct (Lt eq_refl); auto]).
+  all: match goal with |- Inv ?K _ /\ _ => assert (HK : tkind K) by (unfold tkind; tauto) end.
+  all: try (solve [destruct (extend_sim _ l c HK HI Hs); auto]).
+  all: try (solve [destruct (extend_sim _ l [] HK (Inv_nil _) (existsb_ph_nil l)); auto]).
+  all: match goal with |- Inv ?K _ /\ _ => assert (HnK : K <> KTable) by discriminate end.
+  all: destruct (sort_by_inline_sim _ c0 c HnK HI); auto.
+Qed.
+
+(* ---- the final observation ---- *)
+Lemma anyph_false_get k c : anyph c = false -> im_get k c <> Some INone.
+Proof.
+  unfold anyph. induction c as [|[k' i] c IH]; simpl; [congruence|].
+  intro H. apply orb_false_iff in H as [H1 H2].
+  destruct (bytes_eqb k' k); [destruct i; [discriminate|congruence]|auto].
+Qed.
+
+Lemma t_values_table c :
+  t_values c = filter (fun kv : bytes * pay => match snd kv with PTab => false | _ => true end) (abs c).
+Proof.
+  induction c as [|[k [|[z| |]]] c IH]; simpl; rewrite ?IH; reflexivity.
+Qed.
+
+Lemma t_values_inline c : Forall (fun kv => notab (snd kv)) c -> t_values c = abs c.
+Proof.
+  induction c as [|[k [|[z| |]]] c IH]; simpl; intro H; inversion H as [|? ? Hi Hc]; subst;
+    try rewrite (IH Hc); try reflexivity.
+  exfalso. apply Hi. reflexivity.
+Qed.
+
+Lemma tobserve_sim kd ks c :
+  tkind kd -> Inv kd c -> tobserve kd ks c = ref_observe kd ks (abs c).
+Proof.
+  intros Hk HI. pose proof (proj1 HI) as ND.
+  unfold tobserve, ref_observe. rewrite abs_length, emp_eq, abs_length, abs_visible.
+  f_equal.
+  - destruct Hk as [->|[->| ->]]; reflexivity.
+  - apply map_ext. intro k. f_equal. rewrite (ref_get k c ND).
+    pose proof (get_notab kd c HI k) as Lq.
+    destruct Hk as [->|[->| ->]]; cbn; destruct (im_get k c) as [[|q]|] eqn:Gk; cbn; try reflexivity.
+    rewrite as_value_real; [reflexivity|]. apply Lq; [discriminate|reflexivity].
+  - apply map_ext. intro k. f_equal. rewrite (ref_mem k c ND).
+    pose proof (get_notab kd c HI k) as Lq.
+    destruct Hk as [->|[->| ->]]; cbn; destruct (im_get k c) as [[|q]|] eqn:Gk; cbn; try reflexivity.
+    all: rewrite is_value_real; [reflexivity|]; apply Lq; [discriminate|reflexivity].
+  - destruct Hk as [->|[->| ->]]; cbn.
+    + apply t_values_table.
+    + apply t_values_inline. apply (proj2 HI). discriminate.
+    + apply t_values_inline. apply (proj2 HI). discriminate.
+Qed.
+
+(* ---- all histories ---- *)
+Lemma run_cons {S O R} (step : S -> O -> S * R) s o h :
+  run step s (o :: h) = (fst (run step (fst (step s o)) h), snd (step s o) :: snd (run step (fst (step s o)) h)).
+Proof. simpl. destruct (step s o) as [s1 r]. simpl. destruct (run step s1 h) as [s2 rs]. reflexivity. Qed.
+
+Lemma trun_sim kd : tkind kd -> forall h c, Inv kd c -> first_sens kd c h = None ->
+  Inv kd (fst (run (tstep kd) c h)) /\
+  abs (fst (run (tstep kd) c h)) = fst (run (ref_step kd) (abs c) h) /\
+  snd (run (tstep kd) c h) = snd (run (ref_step kd) (abs c) h).
+Proof.
+  intros Hk. induction h as [|o h IH]; intros c HI Hf.
+  - simpl. split; [exact HI|]. split; reflexivity.
+  - cbn [first_sens] in Hf. destruct (tsens kd c o) eqn:Hs; [discriminate|].
+    destruct (tstep_sim kd c o Hk HI Hs) as [HI1 [Ha Ho]].
+    rewrite !run_cons. cbn [fst snd].
+    destruct (IH _ HI1 Hf) as [HI2 [Ha2 Ho2]].
+    rewrite Ha in Ha2, Ho2. split; [exact HI2|]. split; [exact Ha2|]. congruence.
+Qed.
+
+Theorem table_like_refines kd h :
+  tkind kd -> touches_placeholder kd h = false ->
+  snd (run (tstep kd) [] h) = snd (run (ref_step kd) [] h) /\
+  forall ks, tobserve kd ks (fst (run (tstep kd) [] h)) = ref_observe kd ks (fst (run (ref_step kd) [] h)).
+Proof.
+  intros Hk Ht. unfold touches_placeholder in Ht.
+  destruct (first_sens kd [] h) eqn:Hf; [discriminate|].
+  destruct (trun_sim kd Hk h [] (Inv_nil kd) Hf) as [HI [Ha Ho]].
+  split; [exact Ho|]. intro ks. change (@nil (bytes * pay)) with (abs []). rewrite <- Ha.
+  apply tobserve_sim; assumption.
+Qed.
+(* ---- invariants hold in every reachable state, sensitive calls included ---- *)
+Lemma Inv_extend_norm kd l c :
+  tkind kd -> Inv kd c ->
+  Inv kd (im_extend (map (fun kv : bytes * pay => (fst kv, IReal (norm kd (snd kv)))) l) c).
+Proof.
+  intros Hk HI. apply Inv_extend; [exact HI|]. intro Hn. apply Forall_forall. intros x Hx.
+  apply in_map_iff in Hx as [kv [<- _]]. simpl. apply notab_norm; assumption.
+Qed.
+
+Lemma tstep_inv kd c o : tkind kd -> Inv kd c -> Inv kd (fst (tstep kd c o)).
+Proof.
+  intros Hk HI. unfold tstep. destruct (avail kd o); cbn [negb]; [|exact HI].
+  assert (Hn : forall p, kd <> KTable -> notab (IReal (norm kd p))) by (intros; apply notab_norm; assumption).
+  pose proof (fun l => Inv_extend_norm kd l c Hk HI) as He.
+  pose proof (fun l => Inv_extend_norm kd l [] Hk (Inv_nil kd)) as Hf.
+  destruct o; cbn [fst].
+  all: try (destruct (im_get k c) as [[|q]|]).
+  all: destruct Hk as [->|[->| ->]]; cbn [fst].
+  all: try (destruct (is_none _)); cbn [fst].
+  all: auto using Inv_insert, Inv_remove, Inv_retain, Inv_sort, Inv_nil, hack_notab, notab_none.
+  all: try (apply Inv_insert; [exact HI|intros _; first [apply hack_notab | apply notab_none | apply Hn; discriminate]]).
+Qed.
+
+Lemma trun_inv kd : tkind kd -> forall h c, Inv kd c -> Inv kd (fst (run (tstep kd) c h)).
+Proof.
+  intros Hk. induction h as [|o h IH]; intros c HI; [exact HI|].
+  rewrite run_cons. cbn [fst]. apply IH. apply tstep_inv; assumption.
+Qed.
+
+(* the read accessors in ANY reachable state show exactly the real entries *)
+Theorem table_like_view kd h ks :
+  tkind kd ->
+  tobserve kd ks (fst (run (tstep kd) [] h)) = ref_observe kd ks (abs (fst (run (tstep kd) [] h))).
+Proof. intro Hk. apply tobserve_sim; [exact Hk|]. apply trun_inv; [exact Hk|apply Inv_nil]. Qed.
+
+(* placeholders are invisible: removing them physically changes no observation *)
+Lemma im_get_visible k c : NoDup (keys c) -> im_get k (visible c) = flt (im_get k c).
+Proof.
+  unfold visible. induction c as [|[k' [|p]] c IH]; simpl; intro H; [reflexivity| |]; inversion H as [|? ? Hn Hc]; subst.
+  - destruct (bytes_eqb k' k) eqn:E; [|auto]. apply bytes_eqb_eq in E. subst. simpl.
+    apply im_get_notin. intro Hin. apply keys_retain in Hin. tauto.
+  - simpl. destruct (bytes_eqb k' k); [reflexivity|auto].
+Qed.
+
+Lemma visible_idem c : visible (visible c) = visible c.
+Proof.
+  unfold visible. induction c as [|[k [|p]] c IH]; simpl; [reflexivity|exact IH|]. f_equal. exact IH.
+Qed.
+
+Lemma t_values_visible c : t_values (visible c) = t_values c.
+Proof.
+  unfold visible. induction c as [|[k [|[z| |]]] c IH]; simpl; rewrite ?IH; reflexivity.
+Qed.
+
+Lemma flt_idem o : flt (flt o) = flt o.
+Proof. destruct o as [[|p]|]; reflexivity. Qed.
+
+Theorem placeholders_invisible kd ks c :
+  tkind kd -> NoDup (keys c) -> tobserve kd ks c = tobserve kd ks (visible c).
+Proof.
+  intros Hk ND. unfold tobserve, t_len. rewrite visible_idem, t_values_visible. f_equal.
+  - destruct Hk as [->|[->| ->]]; cbn; rewrite visible_idem; reflexivity.
+  - apply map_ext. intro k. f_equal.
+    destruct Hk as [->|[->| ->]]; cbn; rewrite (im_get_visible k c ND); rewrite ?flt_idem; try reflexivity.
+    destruct (im_get k c) as [[|p]|]; reflexivity.
+  - apply map_ext. intro k. f_equal.
+    destruct Hk as [->|[->| ->]]; cbn; rewrite (im_get_visible k c ND); destruct (im_get k c) as [[|p]|]; reflexivity.
+Qed.
+(* ==================================================================================== *)
+(** * G. toml::map::Map: BTreeMap / IndexMap specification versus the reference maps *)
+
+Section Sorted.
+  Context {V : Type}.
+  Implicit Types (c : list (bytes * V)).
+
+  Definition klt (a b : bytes * V) : Prop := key_ltb (fst a) (fst b) = true.
+  Definition ksorted c : Prop := sorted_by klt c.
+
+  Lemma ksorted_NoDup c : ksorted c -> NoDup (keys c).
+  Proof.
+    induction c as [|[k v] c IH]; simpl; intro H; [constructor|]. destruct H as [Hf Hs].
+    constructor; [|apply IH; exact Hs]. intro Hin. apply in_map_iff in Hin as [[k2 v2] [E Hin]]. simpl in E. subst.
+    rewrite Forall_forall in Hf. specialize (Hf _ Hin). unfold klt in Hf. simpl in Hf.
+    rewrite key_ltb_irrefl in Hf. discriminate.
+  Qed.
+
+  Lemma sorted_by_filter (R : bytes * V -> bytes * V -> Prop) f c : sorted_by R c -> sorted_by R (filter f c).
+  Proof.
+    induction c as [|x c IH]; simpl; intro H; [exact I|]. destruct H as [Hf Hs].
+    destruct (f x); simpl; [|auto]. split; [|auto].
+    apply Forall_forall. intros y Hy. apply filter_In in Hy as [Hy _]. rewrite Forall_forall in Hf. auto.
+  Qed.
+
+  Lemma filter_none f c : Forall (fun x => f x = false) c -> filter f c = [].
+  Proof. induction c as [|x c IH]; simpl; intro H; [reflexivity|]. inversion H; subst. rewrite H2. auto. Qed.
+  Lemma filter_all f c : Forall (fun x => f x = true) c -> filter f c = c.
+  Proof. induction c as [|x c IH]; simpl; intro H; [reflexivity|]. inversion H; subst. rewrite H2. f_equal. auto. Qed.
+
+  Lemma bt_insert_eq k v c : ksorted c -> bt_insert k v c = sm_insert k v c.
+  Proof.
+    unfold sm_insert. induction c as [|[k' v'] c IH]; simpl; intro H; [reflexivity|]. destruct H as [Hf Hs].
+    assert (Hgt : forall x, In x c -> key_ltb k' (fst x) = true).
+    { rewrite Forall_forall in Hf. exact Hf. }
+    destruct (key_compare k k') eqn:E.
+    - (* same key *)
+      apply key_compare_eq in E. subst k'. rewrite key_ltb_irrefl. simpl.
+      rewrite filter_none, filter_all; [reflexivity| |]; apply Forall_forall; intros x Hx; simpl.
+      + apply Hgt. exact Hx.
+      + apply key_ltb_asym. apply Hgt. exact Hx.
+    - (* k < k' *)
+      assert (L : key_ltb k k' = true) by (unfold key_ltb; rewrite E; reflexivity).
+      rewrite (key_ltb_asym _ _ L), L. simpl.
+      rewrite filter_none, filter_all; [reflexivity| |]; apply Forall_forall; intros x Hx; simpl.
+      + eapply key_ltb_trans; [exact L|]. apply Hgt. exact Hx.
+      + apply key_ltb_asym. eapply key_ltb_trans; [exact L|]. apply Hgt. exact Hx.
+    - (* k' < k *)
+      assert (L : key_ltb k' k = true).
+      { unfold key_ltb. rewrite (key_compare_antisym k k'), E. reflexivity. }
+      rewrite L, (key_ltb_asym _ _ L). simpl. rewrite (IH Hs). reflexivity.
+  Qed.
+
+  Lemma bt_insert_Forall (P : bytes -> Prop) k v c :
+    Forall (fun kv => P (fst kv)) c -> P k -> Forall (fun kv => P (fst kv)) (bt_insert k v c).
+  Proof.
+    intros H Hk. induction c as [|[k' v'] c IH]; simpl; [repeat constructor; exact Hk|].
+    inversion H; subst. destruct (key_compare k k'); repeat constructor; auto.
+  Qed.
+
+  Lemma bt_insert_sorted k v c : ksorted c -> ksorted (bt_insert k v c).
+  Proof.
+    induction c as [|[k' v'] c IH]; simpl; intro H; [split; [constructor|exact I]|]. destruct H as [Hf Hs].
+    destruct (key_compare k k') eqn:E; simpl.
+    - split; [exact Hf|exact Hs].
+    - assert (L : key_ltb k k' = true) by (unfold key_ltb; rewrite E; reflexivity).
+      split; [|split; [exact Hf|exact Hs]]. constructor; [exact L|].
+      eapply Forall_impl; [|exact Hf]. intros x Hx. unfold klt in *. simpl in *. eapply key_ltb_trans; eauto.
+    - assert (L : key_ltb k' k = true).
+      { unfold key_ltb. rewrite (key_compare_antisym k k'), E. reflexivity. }
+      split; [|apply IH; exact Hs]. apply (bt_insert_Forall (fun x => key_ltb k' x = true)); [exact Hf|exact L].
+  Qed.
+End Sorted.
+
+Definition PInv (kd : mkind) (c : imap pay) : Prop :=
+  match kd with KMapSorted => ksorted c | _ => NoDup (keys c) end.
+Definition pkind (kd : mkind) : Prop := kd = KMapSorted \/ kd = KMapOrdered.
+
+Lemma PInv_NoDup kd c : PInv kd c -> NoDup (keys c).
+Proof. destruct kd; simpl; auto using ksorted_NoDup. Qed.
+
+Lemma p_insert_sim kd k p c :
+  pkind kd -> PInv kd c -> PInv kd (p_insert kd k p c) /\ p_insert kd k p c = ref_insert kd k p c.
+Proof.
+  intros [->| ->] HI; simpl in *.
+  - split; [apply bt_insert_sorted; exact HI|apply bt_insert_eq; exact HI].
+  - split; [apply NoDup_insert; exact HI|apply im_insert_eq; exact HI].
+Qed.
+
+Lemma p_remove_sim kd k c :
+  pkind kd -> PInv kd c -> PInv kd (im_shift_remove k c) /\ im_shift_remove k c = om_remove k c.
+Proof.
+  intros Hk HI. pose proof (PInv_NoDup kd c HI) as ND. split; [|apply im_shift_remove_eq; exact ND].
+  destruct Hk as [->| ->]; simpl in *.
+  - rewrite im_shift_remove_eq by exact ND. apply sorted_by_filter. exact HI.
+  - apply NoDup_remove. exact HI.
+Qed.
+
+Lemma p_retain_sim kd f c :
+  pkind kd -> PInv kd c -> PInv kd (im_retain f c) /\ im_retain f c = om_retain f c.
+Proof.
+  intros Hk HI. split; [|apply im_retain_eq].
+  destruct Hk as [->| ->]; simpl in *.
+  - rewrite im_retain_eq. apply sorted_by_filter. exact HI.
+  - apply NoDup_retain. exact HI.
+Qed.
+
+Lemma p_extend_sim kd l : pkind kd -> forall c, PInv kd c ->
+  PInv kd (p_extend kd l c) /\
+  p_extend kd l c = fold_left (fun acc kv => ref_insert kd (fst kv) (norm kd (snd kv)) acc) l c.
+Proof.
+  intros Hk. induction l as [|[k p] l IH]; intros c HI.
+  - destruct Hk as [->| ->]; simpl; auto.
+  - destruct (p_insert_sim kd k p c Hk HI) as [HI1 E1].
+    destruct (IH _ HI1) as [HI2 E2].
+    assert (En : norm kd p = p) by (destruct Hk as [->| ->]; reflexivity).
+    cbn [fold_left fst snd]. rewrite En, <- E1, <- E2.
+    destruct Hk as [->| ->]; simpl in *; auto.
+Qed.
+
+Lemma PInv_nil kd : pkind kd -> PInv kd [].
+Proof. intros [->| ->]; simpl; [exact I|constructor]. Qed.
+
+Local Arguments om_insert {V} k v m : simpl never.
+Local Arguments sm_insert {V} k v m : simpl never.
+Local Arguments om_remove {V} k m : simpl never.
+Local Arguments om_get {V} k m : simpl never.
+Local Arguments om_mem {V} k m : simpl never.
+Local Arguments om_retain {V} f m : simpl never.
+Local Arguments p_insert kd k p c : simpl never.
+Local Arguments p_extend kd l c : simpl never.
+Local Arguments ref_insert kd k p m : simpl never.
+
+Lemma pstep_sim kd c o :
+  pkind kd -> PInv kd c ->
+  PInv kd (fst (pstep kd c o)) /\ fst (pstep kd c o) = fst (ref_step kd c o) /\ snd (pstep kd c o) = snd (ref_step kd c o).
+Proof.
+  intros Hk HI. unfold pstep, ref_step.
+  destruct (avail kd o) eqn:Av; cbn [negb]; [|cbn; auto].
+  assert (Hm : is_map_kind kd = true) by (destruct Hk as [->| ->]; reflexivity).
+  assert (Hn : forall p, norm kd p = p) by (intro p; destruct Hk as [->| ->]; reflexivity).
+  rewrite Hm.
+  destruct o.
+  all: try (destruct (p_insert_sim kd k p c Hk HI) as [Li1 Li2]).
+  all: try (destruct (p_remove_sim kd k c Hk HI) as [Lr1 Lr2]).
+  all: try (destruct (p_retain_sim kd (fun k p => pred_eval f k (IReal p)) c Hk HI) as [Lf1 Lf2]).
+  all: try (destruct (p_extend_sim kd l Hk c HI) as [Le1 Le2]).
+  all: try (destruct (p_extend_sim kd l Hk [] (PInv_nil kd Hk)) as [Lg1 Lg2]).
+  all: try (destruct Hk as [->| ->]; discriminate Av).
+  all: cbn [fst snd]; rewrite ?Hn, ?om_get_eq, ?om_mem_eq, ?emp_eq; unfold real.
+  all: try (destruct (im_get k c) as [q|] eqn:Gk; cbn).
+  all: try (solve [repeat split; first [assumption | reflexivity | apply PInv_nil; assumption]]).
+Qed.
+
+Lemma prun_sim kd : pkind kd -> forall h c, PInv kd c ->
+  PInv kd (fst (run (pstep kd) c h)) /\
+  fst (run (pstep kd) c h) = fst (run (ref_step kd) c h) /\
+  snd (run (pstep kd) c h) = snd (run (ref_step kd) c h).
+Proof.
+  intros Hk. induction h as [|o h IH]; intros c HI.
+  - simpl. auto.
+  - destruct (pstep_sim kd c o Hk HI) as [HI1 [Ha Ho]].
+    rewrite !run_cons. cbn [fst snd]. destruct (IH _ HI1) as [HI2 [Ha2 Ho2]].
+    rewrite Ha in *. split; [exact HI2|]. split; [exact Ha2|]. congruence.
+Qed.
+
+Lemma pobserve_sim kd ks c : pkind kd -> pobserve ks c = ref_observe kd ks c.
+Proof.
+  intro Hk. unfold pobserve, ref_observe. rewrite emp_eq. f_equal.
+  - apply map_ext. intro k. rewrite om_get_eq. reflexivity.
+  - apply map_ext. intro k. rewrite om_mem_eq. reflexivity.
+  - destruct Hk as [->| ->]; reflexivity.
+Qed.
+
+Theorem map_refines kd h :
+  pkind kd ->
+  snd (run (pstep kd) [] h) = snd (run (ref_step kd) [] h) /\
+  forall ks, pobserve ks (fst (run (pstep kd) [] h)) = ref_observe kd ks (fst (run (ref_step kd) [] h)).
+Proof.
+  intro Hk. destruct (prun_sim kd Hk h [] (PInv_nil kd Hk)) as [_ [Ha Ho]].
+  split; [exact Ho|]. intro ks. rewrite <- Ha. apply pobserve_sim. exact Hk.
+Qed.
+(* ==================================================================================== *)
+(** * H. Array / ArrayOfTables: Vec specification versus the reference vector *)
+
+Lemma v_get_eq i : forall v, v_get i v = nth_error v i.
+Proof. induction i as [|i IH]; intros [|y v]; simpl; auto. Qed.
+
+Lemma v_insert_eq i x : forall v, v_insert i x v = vec_insert i x v.
+Proof.
+  unfold vec_insert. induction i as [|i IH]; intros [|y v]; simpl; try reflexivity.
+  rewrite IH. destruct (i <=? length v)%nat; reflexivity.
+Qed.
+
+Lemma v_remove_eq i : forall v, v_remove i v = vec_remove i v.
+Proof.
+  unfold vec_remove. induction i as [|i IH]; intros [|y v]; simpl; try reflexivity.
+  rewrite IH. destruct (nth_error v i); reflexivity.
+Qed.
+
+Lemma v_replace_eq i x : forall v, v_replace i x v = vec_replace i x v.
+Proof.
+  unfold vec_replace. induction i as [|i IH]; intros [|y v]; simpl; try reflexivity.
+  rewrite IH. destruct (nth_error v i); reflexivity.
+Qed.
+
+Lemma v_retain_eq f v : v_retain f v = filter f v.
+Proof. induction v as [|y v IH]; simpl; [reflexivity|]. rewrite IH. reflexivity. Qed.
+
+Lemma v_ins_sorted_eq le x v : v_ins_sorted le x v = sorted_insert le x v.
+Proof. induction v as [|y v IH]; simpl; [reflexivity|]. rewrite IH. reflexivity. Qed.
+Lemma v_sort_by_eq le v : v_sort_by le v = stable_sort le v.
+Proof. induction v as [|y v IH]; simpl; [reflexivity|]. rewrite v_ins_sorted_eq, IH. reflexivity. Qed.
+
+Lemma v_extend_eq l : forall v, v_extend l v = v ++ l.
+Proof.
+  induction l as [|x l IH]; intro v; simpl; [rewrite app_nil_r; reflexivity|].
+  rewrite IH, <- app_assoc. reflexivity.
+Qed.
+
+Lemma v_gets_eq c n : forall i, v_gets n i c = map (fun j => (j, nth_error c j)) (seq i n).
+Proof. induction n as [|n IH]; intro i; simpl; [reflexivity|]. rewrite v_get_eq, IH. reflexivity. Qed.
+
+Lemma vstep_eq kd c o : vstep kd c o = vref_step kd c o.
+Proof.
+  unfold vstep, vref_step. destruct (vavail kd o); cbn [negb]; [|reflexivity].
+  destruct o; rewrite ?v_insert_eq, ?v_remove_eq, ?v_replace_eq, ?v_get_eq, ?v_retain_eq, ?v_sort_by_eq,
+    ?v_extend_eq, ?emp_eq; reflexivity.
+Qed.
+
+Lemma run_ext {S O R} (f g : S -> O -> S * R) : (forall s o, f s o = g s o) -> forall h s, run f s h = run g s h.
+Proof. intros E. induction h as [|o h IH]; intro s; simpl; [reflexivity|]. rewrite E. destruct (g s o). rewrite IH. reflexivity. Qed.
+
+Lemma vobserve_eq c : vobserve c = vref_observe c.
+Proof. unfold vobserve, vref_observe. rewrite emp_eq, v_gets_eq. reflexivity. Qed.
+
+Theorem vec_refines kd h :
+  snd (run (vstep kd) [] h) = snd (run (vref_step kd) [] h) /\
+  vobserve (fst (run (vstep kd) [] h)) = vref_observe (fst (run (vref_step kd) [] h)).
+Proof.
+  rewrite (run_ext (vstep kd) (vref_step kd) (vstep_eq kd)). split; [reflexivity|apply vobserve_eq].
+Qed.
+
+(* ==================================================================================== *)
+(** * I. read calls never see a placeholder; witnesses for the placeholder class *)
+
+Definition is_read (o : mop) : bool :=
+  match o with
+  | MGet _ | MGetM _ | MGkv _ | MGkvM _ | MCk _ | MCt _ | MCv _ | MCa _ | MLen | MEmp | MIter | MIterM | MIdx _ => true
+  | _ => false
+  end.
+
+Lemma read_not_sensitive kd c o : is_read o = true -> tsens kd c o = false.
+Proof.
+  unfold tsens. destruct (avail kd o); [|reflexivity]. destruct o; simpl; try discriminate; intros _; destruct kd; reflexivity.
+Qed.
+
+Theorem reads_blind kd h o :
+  tkind kd -> is_read o = true ->
+  snd (tstep kd (fst (run (tstep kd) [] h)) o) = snd (ref_step kd (abs (fst (run (tstep kd) [] h))) o).
+Proof.
+  intros Hk Hr.
+  pose proof (trun_inv kd Hk h [] (Inv_nil kd)) as HI.
+  destruct (tstep_sim kd _ o Hk HI (read_not_sensitive kd _ o Hr)) as [_ [_ Ho]]. exact Ho.
+Qed.
+
+Theorem placeholders_invisible_reachable kd h ks :
+  tkind kd ->
+  tobserve kd ks (fst (run (tstep kd) [] h)) = tobserve kd ks (visible (fst (run (tstep kd) [] h))).
+Proof.
+  intro Hk. apply placeholders_invisible; [exact Hk|].
+  exact (proj1 (trun_inv kd Hk h [] (Inv_nil kd))).
+Qed.
+
+Definition ka : bytes := ["a"%byte].
+Definition kb : bytes := ["b"%byte].
+
+(* Table: `let _ = &mut t["a"]; t.insert("a", 1)` returns Some(Item::None), a plain map returns None *)
+Definition w_table_insert : list mop := [MIdxM ka; MIns ka (PInt 1)].
+(* Table: `let _ = &mut t["a"]; t.entry("a").or_insert(1)` returns the none item and stores nothing *)
+Definition w_table_or_insert : list mop := [MIdxM ka; MEoi ka (PInt 1); MLen].
+(* Table: a placeholder reserves a position: a, b instead of b, a *)
+Definition w_table_order : list mop := [MIdxM ka; MISet kb (PInt 1); MISet ka (PInt 2); MIter].
+(* InlineTable: `entry("a")` on a placeholder turns it into `{}` even if the entry is dropped *)
+Definition w_inline_entry : list mop := [MIdxM ka; MEnt ka; MLen].
+(* InlineTable: `get_or_insert("a", 1)` on a placeholder panics *)
+Definition w_inline_goi : list mop := [MIdxM ka; MGoi ka (PInt 1)].
+(* TableLike for InlineTable: entry("a") is Occupied(Item::None), or_insert stores nothing *)
+Definition w_tl_entry : list mop := [MIdxM ka; MEoi ka (PInt 1); MLen].
+
+Definition differs (kd : mkind) (h : list mop) : Prop :=
+  touches_placeholder kd h = true /\
+  snd (run (tstep kd) [] h) <> snd (run (ref_step kd) [] h).
+
+Lemma w_table_insert_differs : differs KTable w_table_insert.
+Proof. split; [reflexivity|]. vm_compute. congruence. Qed.
+Lemma w_table_or_insert_differs : differs KTable w_table_or_insert.
+Proof. split; [reflexivity|]. vm_compute. congruence. Qed.
+Lemma w_table_order_differs : differs KTable w_table_order.
+Proof. split; [reflexivity|]. vm_compute. congruence. Qed.
+Lemma w_inline_entry_differs : differs KInline w_inline_entry.
+Proof. split; [reflexivity|]. vm_compute. congruence. Qed.
+Lemma w_inline_goi_differs : differs KInline w_inline_goi.
+Proof. split; [reflexivity|]. vm_compute. congruence. Qed.
+Lemma w_tl_entry_differs : differs KInlineTL w_tl_entry.
+Proof. split; [reflexivity|]. vm_compute. congruence. Qed.
+
